@@ -22,9 +22,11 @@ CONSTANT Size    \* "small" | "large": how far the type arguments are nested
 
 (* ---- kinds: V == <<>>, a -> b == <<a, b>> (tuples throughout so that TLC can compare any two) ------------ *)
 V == <<>>
+C == <<V>>                \* the kind of computation types (a tuple of length one: distinct from V, from arrows and from Err)
 VV == <<V, V>>
 Err == <<V, V, V>>
-HeadKind == [Int |-> V, Bool |-> V, Prod |-> <<V, <<V, V>>>>, Id |-> VV, K |-> VV, Dup |-> VV, Box |-> VV, Two |-> <<VV, VV>>]
+HeadKind == [Int |-> V, Bool |-> V, Prod |-> <<V, <<V, V>>>>, Id |-> VV, K |-> VV, Dup |-> VV, Box |-> VV, Two |-> <<VV, VV>>,
+             Ret |-> <<V, C>>, Thk |-> <<C, V>>]
 Ops1 == {"Id", "K", "Dup", "Box"}
 
 (* ---- type expressions: <<head, arg1, .., argn>> ---------------------------------------------------------- *)
@@ -38,7 +40,7 @@ E2 == E1 \cup One(E1) \cup {<<"Two", f, a>> : f \in Bare \cup One(Bare), a \in B
 
 RECURSIVE KindOf(_), KindArgs(_, _, _)
 KindArgs(k, e, i) == IF i > Len(e) THEN k
-                     ELSE IF k = V \/ k = Err THEN Err                   \* a type applied to something
+                     ELSE IF Len(k) # 2 THEN Err                          \* a type (V or C) applied to something
                      ELSE IF KindOf(e[i]) # k[1] THEN Err
                      ELSE KindArgs(k[2], e, i + 1)
 KindOf(e) == KindArgs(HeadKind[e[1]], e, 2)
@@ -49,6 +51,7 @@ NF(e) == LET h == e[1] IN
   CASE h = "Int"  -> <<"Int">>
     [] h = "Bool" -> <<"Bool">>
     [] h = "Prod" -> <<"Prod", NF(e[2]), NF(e[3])>>
+    [] h \in {"Ret", "Thk"} -> <<h, NF(e[2])>>
     [] h = "Id"   -> NF(e[2])
     [] h = "K"    -> <<"Int">>
     [] h = "Dup"  -> <<"Prod", NF(e[2]), NF(e[2])>>
@@ -56,9 +59,10 @@ NF(e) == LET h == e[1] IN
     [] h = "Two"  -> NF(Append(e[2], Append(e[2], e[3])))                 \* F (F A): the operator's spine grows
 \* the other strategy: arguments of kind V first, then the head
 RECURSIVE NFArgsFirst(_)
-NFArgsFirst(e) == LET a == [i \in 1..Len(e) |-> IF i > 1 /\ KindOf(e[i]) = V THEN NFArgsFirst(e[i]) ELSE e[i]] IN
+NFArgsFirst(e) == LET a == [i \in 1..Len(e) |-> IF i > 1 /\ KindOf(e[i]) \in {V, C} THEN NFArgsFirst(e[i]) ELSE e[i]] IN
   CASE a[1] \in {"Int", "Bool"} -> <<a[1]>>
     [] a[1] = "Prod" -> <<"Prod", a[2], a[3]>>
+    [] a[1] \in {"Ret", "Thk"} -> <<a[1], a[2]>>
     [] a[1] = "Id"   -> a[2]
     [] a[1] = "K"    -> <<"Int">>
     [] a[1] = "Dup"  -> <<"Prod", a[2], a[2]>>
@@ -70,7 +74,9 @@ Fns == [
   id  |-> [tb |-> <<[n |-> "A", k |-> V]>>,                      vb |-> << <<"A">> >>,            res |-> <<"A">>],
   k   |-> [tb |-> <<[n |-> "A", k |-> V], [n |-> "B", k |-> V]>>, vb |-> << <<"A">>, <<"B">> >>,   res |-> <<"A">>],
   ap  |-> [tb |-> <<[n |-> "F", k |-> VV], [n |-> "A", k |-> V]>>, vb |-> << <<"F", <<"A">>>> >>, res |-> <<"F", <<"A">>>>],
-  dup |-> [tb |-> <<[n |-> "A", k |-> V]>>,                      vb |-> << <<"A">> >>,            res |-> <<"Dup", <<"A">>>>]]
+  dup |-> [tb |-> <<[n |-> "A", k |-> V]>>,                      vb |-> << <<"A">> >>,            res |-> <<"Dup", <<"A">>>>],
+  \* quantification over COMPUTATION types: frc : forall (R : CType) . Thk R -> R; the result is the computation R itself
+  frc |-> [tb |-> <<[n |-> "R", k |-> C]>>,                      vb |-> << <<"Thk", <<"R">>>> >>, res |-> <<"R">>]]
 FnNames == DOMAIN Fns
 
 RECURSIVE Subst(_, _)
@@ -82,8 +88,12 @@ Subst(t, env) == LET args == [i \in 1..(Len(t) - 1) |-> Subst(t[i + 1], env)] IN
 (* structural type: `def Option (A : VType) = data .. end` is how nominal data types are declared, so               *)
 (* `+T() : Box Bool` is accepted although `Box Bool` and `Bool` are different types.  Literals and variables are     *)
 (* compared by type equality, where a sealed operator is opaque (`3 : Box Int64` and `vtt : Box Bool` are errors).   *)
-Vals == {"three", "tt", "pair", "vtt", "vpair"}
-Den == [three |-> <<"i", 3>>, tt |-> <<"t">>, pair |-> <<"p", <<"i", 3>>, <<"i", 4>>>>, vtt |-> <<"t">>, vpair |-> <<"p", <<"i", 3>>, <<"i", 4>>>>]
+\* A thunk `{ ret 3 }` is checked against Thk (Ret Int64) exactly (no seal is looked through: `{ ret 5 } : T` with
+\* `def T = Thk (Ret Int64)` is an error).
+Vals == {"three", "tt", "pair", "vtt", "vpair", "thk3"}
+Den == [three |-> <<"i", 3>>, tt |-> <<"t">>, pair |-> <<"p", <<"i", 3>>, <<"i", 4>>>>, vtt |-> <<"t">>, vpair |-> <<"p", <<"i", 3>>, <<"i", 4>>>>,
+        thk3 |-> <<"i", 3>>]
+TRI == <<"Thk", <<"Ret", <<"Int">>>>>>
 \* ONE seal: `+T() : Box (Box Bool)` is an error ("Type expected: data type definition")
 Unroll(t) == IF t[1] = "Box" THEN t[2] ELSE t
 Checks(v, t) == CASE v = "three" -> t = <<"Int">>
@@ -91,12 +101,15 @@ Checks(v, t) == CASE v = "three" -> t = <<"Int">>
                   [] v = "pair"  -> Unroll(t)[1] = "Prod" /\ Unroll(t)[2] = <<"Int">> /\ Unroll(t)[3] = <<"Int">>
                   [] v = "vtt"   -> t = <<"Bool">>
                   [] v = "vpair" -> t = PII
+                  [] v = "thk3"  -> t = TRI
 Uses == {"exit", "isT", "snd", "drop"}
 
 EnvOf(p) == LET tb == Fns[p.g].tb IN [n \in {tb[i].n : i \in DOMAIN tb} |-> p.targs[CHOOSE i \in DOMAIN tb : tb[i].n = n]]
 KindOK(p) == \A i \in DOMAIN Fns[p.g].tb : KindOf(p.targs[i]) = Fns[p.g].tb[i].k
 ArgsOK(p) == \A j \in DOMAIN Fns[p.g].vb : Checks(p.vals[j], NF(Subst(Fns[p.g].vb[j], EnvOf(p))))
 ResNF(p) == NF(Subst(Fns[p.g].res, EnvOf(p)))
+\* for `frc` the result is a computation type and `do y <- ..` eliminates Ret: "exit" needs Ret Int64, the others any Ret
+UseOKC(u, r) == r[1] = "Ret" /\ (u = "exit" => r[2] = <<"Int">>) /\ u \in {"exit", "drop"}
 UseOK(u, r) == CASE u = "exit" -> r = <<"Int">>                                       \* a variable against Int64: equality
                  [] u = "isT"  -> Unroll(r) = <<"Bool">>                              \* eliminations look through seals
                  [] u = "snd"  -> Unroll(r)[1] = "Prod" /\ Unroll(r)[3] = <<"Int">>
@@ -104,20 +117,28 @@ UseOK(u, r) == CASE u = "exit" -> r = <<"Int">>                                 
 Verdict(p) == IF p.dropped THEN "sort"          \* first type argument left out: a value where a type is expected
               ELSE IF ~KindOK(p) THEN "kind"
               ELSE IF ~ArgsOK(p) THEN "mismatch"
-              ELSE IF ~UseOK(p.use, ResNF(p)) THEN "mismatch" ELSE "accept"
+              ELSE IF p.g = "frc" /\ ~UseOKC(p.use, ResNF(p)) THEN "mismatch"
+              ELSE IF p.g # "frc" /\ ~UseOK(p.use, ResNF(p)) THEN "mismatch" ELSE "accept"
 ResDen(p) == IF p.g = "dup" THEN <<"p", Den[p.vals[1]], Den[p.vals[1]]>> ELSE Den[p.vals[1]]
 Exit(p) == LET d == ResDen(p) IN CASE p.use = "exit" -> d[2] [] p.use = "isT" -> 1 [] p.use = "snd" -> d[3][2] [] OTHER -> 7
 
 \* the argument sets: every well-kinded expression of the bound (kind V, and kind V -> V for the operator slot) plus a
 \* fixed sample of ill-kinded ones (ill-kinded arguments all fail alike; enumerating them all only costs time)
+\* arguments for the CType slot: computation types, and what is not one (a value type, an operator, Ret of a computation,
+\* Thk of a value, a transparent operator applied to a computation)
+CArgs == {<<"Ret", b>> : b \in Base \cup {<<"Id", <<"Int">>>>, <<"Box", <<"Int">>>>, <<"K", <<"Bool">>>>}}
+         \cup {<<"Ret", <<"Ret", <<"Int">>>>>>, <<"Thk", <<"Int">>>>, <<"Int">>, <<"Ret">>, TRI, <<"Id", <<"Ret", <<"Int">>>>>>, <<"Ret", <<"Id">>>>}
+\* value types built from computations, and computation types where a value type is expected
+ThunkArgs == {TRI, <<"Thk", <<"Ret", <<"Bool">>>>>>, <<"Id", TRI>>, <<"Box", TRI>>, <<"Ret", <<"Int">>>>, <<"Thk", <<"Int">>>>, <<"Dup", <<"Ret", <<"Int">>>>>>}
 IllSample == Bare \cup {<<"Int", <<"Int">>>>, <<"Id", <<"Id">>>>, <<"Two", <<"Int">>>>, <<"Two", <<"Id">>, <<"K">>>>, <<"Box", <<"Dup">>>>, <<"Two", <<"Two">>, <<"Int">>>>}
 OpsVV == {<<h>> : h \in Ops1} \cup {<<"Two", <<h>>>> : h \in Ops1} \cup {<<"Two", <<"Two", <<h>>>>>> : h \in {"Dup", "Box"}}
 WK(S) == {e \in S : KindOf(e) = V}
 Few == Base \cup {<<"Box", <<"Int">>>>, <<"Id", <<"Bool">>>>, <<"K", <<"Bool">>>>, <<"Dup", <<"Int">>>>, <<"Box", <<"Bool">>>>, <<"Id">>, <<"Int", <<"Int">>>>}
-TArgs(g, i) == IF Size = "small"
-               THEN (IF g = "ap" /\ i = 1 THEN OpsVV \cup IllSample \cup Base ELSE IF g \in {"ap", "k"} THEN Few ELSE WK(E1) \cup IllSample \cup OpsVV)
+TArgs(g, i) == IF g = "frc" THEN CArgs ELSE
+               IF Size = "small"
+               THEN (IF g = "ap" /\ i = 1 THEN OpsVV \cup IllSample \cup Base ELSE IF g \in {"ap", "k"} THEN Few ELSE WK(E1) \cup IllSample \cup OpsVV \cup ThunkArgs)
                ELSE (IF g = "ap" /\ i = 1 THEN OpsVV \cup IllSample \cup Base ELSE IF g = "ap" THEN WK(E1) \cup IllSample
-                     ELSE IF g = "k" /\ i = 1 THEN WK(E1) ELSE IF g = "k" THEN Few ELSE WK(E2) \cup IllSample \cup OpsVV)
+                     ELSE IF g = "k" /\ i = 1 THEN WK(E1) ELSE IF g = "k" THEN Few ELSE WK(E2) \cup IllSample \cup OpsVV \cup ThunkArgs)
 Programs(g) == {[fam |-> "inst", g |-> g, targs |-> ta, vals |-> vs, use |-> u, dropped |-> d] :
                   ta \in (IF Len(Fns[g].tb) = 1 THEN {<<a>> : a \in TArgs(g, 1)} ELSE {<<a, b>> : a \in TArgs(g, 1), b \in TArgs(g, 2)}),
                   vs \in (IF Len(Fns[g].vb) = 1 THEN {<<v>> : v \in Vals} ELSE {<<v, w>> : v \in Vals, w \in {"three", "vtt"}}),
@@ -174,7 +195,10 @@ StrategyIndependent == \A e \in WellKinded(Universe) : NF(e) = NFArgsFirst(e)
 Idempotent == \A e \in WellKinded(Universe) : NF(NF(e)) = NF(e) /\ KindOf(NF(e)) = V
 RECURSIVE Heads(_)
 Heads(e) == {e[1]} \cup UNION {Heads(e[i]) : i \in 2..Len(e)}
-NormalFormsAreNormal == \A e \in WellKinded(Universe) : Heads(NF(e)) \subseteq {"Int", "Bool", "Prod", "Box"}
+NormalFormsAreNormal == \A e \in WellKinded(Universe \cup ThunkArgs) : Heads(NF(e)) \subseteq {"Int", "Bool", "Prod", "Box", "Ret", "Thk"}
+\* the two sorts of types never mix: a well-kinded expression has exactly one of the kinds, and Ret / Thk switch between them
+SortsSwitch == \A e \in CArgs \cup ThunkArgs : (KindOf(e) = C => KindOf(<<"Thk", e>>) = V /\ KindOf(<<"Ret", e>>) = Err)
+                                            /\ (KindOf(e) = V => KindOf(<<"Ret", e>>) = C /\ KindOf(<<"Thk", e>>) = Err)
 \* a sealed operator is injective and disjoint from everything else: Box a = Box b iff a = b, Box a is never a's normal form
 SealedIsNominal == \A e \in WellKinded(Universe) : NF(<<"Box", e>>) # NF(e) /\ Unroll(NF(<<"Box", e>>)) = NF(e)
 \* the verdict depends on a type argument only through its kind and normal form
@@ -182,7 +206,7 @@ RespectsEquality == \A g \in {"id", "dup"} : \A a, b \in WellKinded(WK(E1)) : NF
                       \A v \in Vals, u \in Uses :
                         Verdict([fam |-> "inst", g |-> g, targs |-> <<a>>, vals |-> <<v>>, use |-> u, dropped |-> FALSE])
                         = Verdict([fam |-> "inst", g |-> g, targs |-> <<b>>, vals |-> <<v>>, use |-> u, dropped |-> FALSE])
-Inv == stage = "pick" /\ prog.g = "id" => (CaptureMatters /\ StrategyIndependent /\ Idempotent /\ NormalFormsAreNormal /\ SealedIsNominal /\ RespectsEquality)
+Inv == stage = "pick" /\ prog.g = "id" => (CaptureMatters /\ SortsSwitch /\ StrategyIndependent /\ Idempotent /\ NormalFormsAreNormal /\ SealedIsNominal /\ RespectsEquality)
 
 Report == stage = "done" =>
   IF prog.fam = "alpha" THEN PrintT(<<"REPLAY", ToJson(prog @@ [verdict |-> AlphaVerdict(prog), exit |-> 3])>>)
